@@ -540,6 +540,59 @@ func genC18(w *bufio.Writer, tier string, rng *rand.Rand) {
 			}
 		}
 	}
+	// the same shapes with extra cross and back edges under a random renumbering of the nodes: the walk meets
+	// the ids in no particular order (storage grows by arbitrary jumps, nodes are met again long after they
+	// were first seen), and renumberings that visit the ids next to the growth boundaries first
+	rsizes := []int{1100, 2100, 4200, 5000, 9000}
+	if isThorough(tier) {
+		rsizes = append(rsizes, 17000, 33000, 70000, 2049, 4097, 8193)
+	}
+	for _, n := range rsizes {
+		for rep := 0; rep < pick(tier, 2, 4); rep++ {
+			kind := []string{"tree", "layers", "path", "cycle"}[rng.Intn(4)]
+			g0 := structGraph(rng, kind, n)
+			for b := 0; b < 3+rng.Intn(n/50+1); b++ {
+				u := rng.Intn(n)
+				g0[u] = append(g0[u], rng.Intn(n))
+			}
+			perm := rng.Perm(n)
+			if rep%2 == 1 { // the first nodes of the walk get ids at and next to the powers of two
+				special := []int{}
+				for _, b := range []int{1024, 2048, 4096, 8192, 16384, 32768, 65536} {
+					for _, d := range []int{0, -1, 1, 31, 32, 33} {
+						if b+d < n {
+							special = append(special, b+d)
+						}
+					}
+				}
+				rng.Shuffle(len(special), func(i, j int) { special[i], special[j] = special[j], special[i] })
+				used := map[int]bool{}
+				perm = perm[:0]
+				for _, v := range special {
+					if !used[v] {
+						used[v] = true
+						perm = append(perm, v)
+					}
+				}
+				for _, v := range rng.Perm(n) {
+					if !used[v] {
+						perm = append(perm, v)
+					}
+				}
+			}
+			g := make([][]int, n)
+			for u := range g0 {
+				for _, v := range g0[u] {
+					g[perm[u]] = append(g[perm[u]], perm[v])
+				}
+			}
+			gs := fmtIntss(g)
+			fmt.Fprintf(w, "pre %s %d\npost %s %d\n", gs, perm[0], gs, perm[0])
+			if n <= 5000 {
+				fmt.Fprintf(w, "euler %s %d\n", gs, perm[0])
+			}
+		}
+	}
 	// long paths ending in a small random gadget (deep recursion, then branching), and hubs with
 	// hundreds of distinct and repeated successors
 	for k := 0; k < pick(tier, 5, 20); k++ {
@@ -595,6 +648,47 @@ func genC18(w *bufio.Writer, tier string, rng *rand.Rand) {
 			}
 			fmt.Fprintf(w, "equal %s %s\n", gs, fmtIntss(g2))
 		}
+	}
+	// subgraphs of graphs with one very long adjacency list (edge indexes far beyond a node count; lengths aimed at
+	// the numeric constants of the code): the kept / removed edges include the last ones of the long list
+	for _, deg := range append([]int{300, 5000}, dictSizes(rng, 50, 140000, pick(tier, 2, 12))...) {
+		n := 3 + rng.Intn(4)
+		g := make([][]int, n)
+		for e := 0; e < deg; e++ {
+			g[0] = append(g[0], 1+rng.Intn(n-1))
+		}
+		for u := 1; u < n; u++ {
+			for e := 0; e < 1+rng.Intn(3); e++ {
+				g[u] = append(g[u], rng.Intn(n))
+			}
+		}
+		gs := fmtIntss(g)
+		var es []string
+		for _, e := range []int{deg - 1, deg - 2, deg / 2, 0, 1, 65536, 65535, 65537, 256, 255} {
+			if e >= 0 && e < deg && rng.Intn(3) != 0 {
+				es = append(es, fmt.Sprintf("[0,%d]", e))
+			}
+		}
+		for u := 1; u < n; u++ {
+			for e := range g[u] {
+				if rng.Intn(2) == 0 {
+					es = append(es, fmt.Sprintf("[%d,%d]", u, e))
+				}
+			}
+		}
+		// no edge twice
+		seenE := map[string]bool{}
+		var es2 []string
+		for _, e := range es {
+			if !seenE[e] {
+				seenE[e] = true
+				es2 = append(es2, e)
+			}
+		}
+		rng.Shuffle(len(es2), func(i, j int) { es2[i], es2[j] = es2[j], es2[i] })
+		all := rng.Perm(n)
+		fmt.Fprintf(w, "keep %s %s [%s]\n", gs, fmtInts(all), strings.Join(es2, ","))
+		fmt.Fprintf(w, "remove %s %s [%s]\n", gs, fmtInts(all[:rng.Intn(2)]), strings.Join(es2, ","))
 	}
 	// medium structured graphs for SCC (<= 300 nodes)
 	for k := 0; k < pick(tier, 20, 300); k++ {
